@@ -115,6 +115,13 @@ def sym_result(op, res_, subs):
             vv = v.evalf(50) if hasattr(v, "evalf") else v
             return bool(vv)
         n = v.evalf(50)
+        if n.is_number and n.is_real is False:
+            # acos / asin / sqrt of an argument that the expression's 15-digit Float literals push past the end of the
+            # domain by a rounding (exactly antiparallel operands: acos(-1 - 1e-16) = pi - 1.5e-8 i): the imaginary part
+            # is the square root of a rounding; the real part is judged with the conditioning factor of the definition
+            re_, im_ = n.as_real_imag()
+            if abs(im_) <= 1e-6 * max(1, abs(re_)):
+                return mpf(str(re_))
         if n.is_real is False or not n.is_number:
             raise ValueError(f"not a real number: {n}")
         return mpf(str(n))
